@@ -229,6 +229,10 @@ func (e *Engine) checkPost(fr *Frame, con *Contract, ci int, sc *SpecCase, o Out
 	}
 	ens := sc.Ensures
 	for _, cl := range ens {
+		if cl.Axiom {
+			e.noteAssumption("axiom of " + key + " (assumed, not checked in the body): " + cl.Text)
+			continue
+		}
 		if !hasTag(cl.Tags, e.curTags) {
 			continue
 		}
